@@ -46,7 +46,7 @@ class World:
     def rand_prj2(self):
         """user-defined zone systems other than 6 degrees from -177: (zone width, central meridian of zone 1)"""
         r = self.rnd
-        zw, cm1 = r.choice([(6, 0), (3, -177), (8, -176), (2, 141), (6, -177), (4, -178), (6, 3)])
+        zw, cm1 = r.choice([(6, 0), (3, -177), (8, -176), (2, 141), (6, -177), (4, -178), (6, 3), (1.5, -179.25), (2.5, -178.75), (1.5, 100.5)])
         return ("rand", alpha.build(self.gc.Projection, float(r.randrange(100000, 1000001, 50000)), float(r.randrange(9000000, 10000001, 100000)),
                                     r.choice([0.9996, 0.9999, 1.0, 0.999]), zw, cm1))
 
@@ -63,7 +63,8 @@ class World:
 
     def prj_rec(self, name, P):
         fe, fn, k0, zw, cm1 = alpha.defn(P, "falseeast", "falsenorth", "cmscale", "zonewidth", "initialcm")   # as built, not as stored
-        return {"name": name, "fe": fix.enc(fe), "fn": fix.enc(fn), "k0": fix.enc(k0), "zw": int(zw), "cm1": int(cm1), "isg": P is self.gc.isg}
+        return {"name": name, "fe": fix.enc(fe), "fn": fix.enc(fn), "k0": fix.enc(k0), "zw": int(zw), "cm1": int(cm1), "isg": P is self.gc.isg,
+                "zwx": fix.enc(zw), "cm1x": fix.enc(cm1)}       # exact (a zone system may have a fractional width: TMA events only)
 
     def rounding_env(self, lat, E):
         """metric auxiliaries (DESIGN 3.7): longitude equivalent of the 0.05 mm output rounding of E and N"""
